@@ -98,12 +98,22 @@ func (e *Engine) RunRoot(fn *ssa.Function) (err error) {
 			}
 			s.assume(t)
 		}
-		if len(fr.contract.Requires) > 0 {
+		for _, c := range fr.contract.RepInv {
+			t, err := e.evalClause(s, fr, c, nil, nil)
+			if err != nil {
+				return fmt.Errorf("%s: rep_invariant %q: %v", e.rootKey, c.Src, err)
+			}
+			s.assume(t)
+		}
+		if len(fr.contract.Requires) > 0 || len(fr.contract.RepInv) > 0 {
 			// vacuity: requires must be satisfiable
 			s.addCover("cover", e.rootKey+"#cover:requires", fn.Pos(), "requires satisfiable")
 		}
 	}
 	if fr.contract != nil {
+		e.checkDominated(s, fn, fr.contract)
+		e.checkWritesUnconditionally(s, fn, fr.contract)
+		e.checkDeterministic(s, fn, fr.contract)
 		e.checkIfaceCallsOnly(s, fn, fr.contract)
 		e.checkDirectCallsOnly(s, fn, fr.contract)
 		e.checkNeverCalls(s, fn, fr.contract)
@@ -1000,10 +1010,23 @@ func (e *Engine) execBinOp(s *State, fr *Frame, x *ssa.BinOp) {
 		s.assume(nz)
 		// Go truncates toward zero; SMT div/mod are floor/euclidean for positive divisor
 		q := e.goDiv(a, b)
+		if _, lit := litValue(b); !lit {
+			// symbolic divisor: the solvers treat div as non-linear; state the elementary bound |a/b| <= |a|
+			// (true for every b != 0) so that range checks on the quotient stay linear
+			s.assume(Ite(Ge(a, IntLit(0)), And(Le(Sub(IntLit(0), a), q), Le(q, a)), And(Le(a, q), Le(q, Sub(IntLit(0), a)))))
+		}
 		if x.Op == token.QUO {
 			r = wrapInt(q, rt)
 		} else {
 			r = Sub(a, Mul(b, q))
+			if _, lit := litValue(b); !lit {
+				// symbolic divisor: elementary facts about Go's remainder (sign of the dividend, |r| < |b|)
+				rd := e.u.Define("rem", r)
+				s.assume(And(Ite(Ge(a, IntLit(0)), Ge(rd, IntLit(0)), Le(rd, IntLit(0))),
+					Implies(Gt(b, IntLit(0)), And(Lt(Sub(IntLit(0), b), rd), Lt(rd, b))),
+					Implies(Lt(b, IntLit(0)), And(Lt(b, rd), Lt(rd, Sub(IntLit(0), b))))))
+				r = rd
+			}
 		}
 	case token.LSS:
 		r = Lt(a, b)
@@ -1325,6 +1348,7 @@ func (e *Engine) stringToBytes(s *State, str Term, elem types.Type) Term {
 		s.assume(Term{ax2, SBool})
 	}
 	s.heapSet(key, Store(s.heapGet(key, sort), base, arr))
+	e.noteStringBytes(base, arr, str)
 	return e.u.Define("bytes", App("mk-slice", SSlice, base, IntLit(0), n, n))
 }
 
